@@ -190,11 +190,11 @@ def _replay_method_rebuild(threads):
     cm.make_covariance_matrix()
     cm.make_tomographic_reconstructor()
     cm.gs_positions[0] = [-15.0, 25.0]
-    M2 = numpy.array(cm.make_covariance_matrix(), dtype=float)
+    M2 = numpy.array(cm.make_covariance_matrix())      # same dtype as the instance holds (float32)
     r2 = numpy.array(cm.make_tomographic_reconstructor())
     d2 = numpy.array(sc.create_tomographic_covariance_reconstructor(M2, 4, 0))
     err = float(numpy.max(numpy.abs(r2 - d2)))
-    return err > 1e-9, dict(what="reconstructor after a rebuild (threads=%d) is not the reconstructor of the rebuilt matrix" % threads, max_abs_diff=err)
+    return err > 1e-6 * max(1.0, float(numpy.max(numpy.abs(d2)))), dict(what="reconstructor after a rebuild (threads=%d) is not the reconstructor of the rebuilt matrix" % threads, max_abs_diff=err)
 
 
 def _replay_method():
